@@ -568,57 +568,111 @@ impl Xot {
     /// You can use this function just before serializing the tree to XML
     /// using [`Xot::write`] or [`Xot::to_string`].
     pub fn create_missing_prefixes(&mut self, node: Node) -> Result<(), Error> {
-        let node = if self.is_document(node) {
-self.document_element(node)?
-        } else {
-            node
-        };
+        if self.is_document(node) {
+            // a fragment can have more than one element at the top
+            let elements = self
+                .children(node)
+                .filter(|child| self.is_element(*child))
+                .collect::<Vec<_>>();
+            if elements.is_empty() {
+                return Err(Error::NoElementAtTopLevel);
+            }
+            for element in elements {
+                self.create_missing_prefixes_for_element(element);
+            }
+            return Ok(());
+        }
         if !self.is_element(node) {
             return Err(Error::NotElement(node));
         };
-        let mut fullname_serializer = FullnameSerializer::new(self, vec![]);
-        let mut missing_namespace_ids = HashSet::default();
+        self.create_missing_prefixes_for_element(node);
+        Ok(())
+    }
+
+    fn create_missing_prefixes_for_element(&mut self, node: Node) {
+        // the declarations the node inherits count too
+        let inherited = if let Some(parent) = self.parent(node) {
+            self.namespaces_in_scope(parent).collect()
+        } else {
+            self.base_prefixes().into_iter().collect()
+        };
+        let mut fullname_serializer = FullnameSerializer::new(self, inherited);
+        // namespaces without a usable prefix, in order of first use
+        let mut missing_namespace_ids = Vec::new();
+        // elements in no namespace that sit in the scope of a default namespace;
+        // they need an xmlns="" declaration
+        let mut undeclare_nodes = Vec::new();
+        // prefixes that are declared somewhere in the subtree: a new prefix must
+        // not be one of those, or it would be shadowed there
+        let mut used_prefix_ids = HashSet::default();
+        // whether the element pushed a frame on the name stack
+        let mut pushed = Vec::new();
         for edge in self.traverse(node) {
             match edge {
                 NodeEdge::Start(node) => {
                     let element = self.element(node);
                     if let Some(element) = element {
-                        fullname_serializer.push(self.namespace_declarations(node));
-                        let element_fullname =
-                            fullname_serializer.element_fullname(element.name_id);
-                        if element_fullname.is_err() {
-                            let namespace_id = self.namespace_for_name(element.name_id);
-                            missing_namespace_ids.insert(namespace_id);
+                        let mut declarations = self.namespace_declarations(node);
+                        for (prefix_id, _) in &declarations {
+                            used_prefix_ids.insert(*prefix_id);
+                        }
+                        fullname_serializer.push(declarations.clone());
+                        let namespace_id = self.namespace_for_name(element.name_id);
+                        if namespace_id == self.no_namespace()
+                            && fullname_serializer.has_default_namespace()
+                        {
+                            undeclare_nodes.push(node);
+                            // from here on down the default namespace is undeclared
+                            fullname_serializer.pop(!declarations.is_empty());
+                            declarations.push((self.empty_prefix(), self.no_namespace()));
+                            fullname_serializer.push(declarations.clone());
+                        }
+                        pushed.push(!declarations.is_empty());
+                        if fullname_serializer.element_fullname(element.name_id).is_err()
+                            && !missing_namespace_ids.contains(&namespace_id)
+                        {
+                            missing_namespace_ids.push(namespace_id);
                         }
                         for name_id in self.attributes(node).keys() {
-                            let attribute_fullname =
-                                fullname_serializer.attribute_fullname(name_id);
-                            if attribute_fullname.is_err() {
+                            if fullname_serializer.attribute_fullname(name_id).is_err() {
                                 let namespace_id = self.namespace_for_name(name_id);
-                                missing_namespace_ids.insert(namespace_id);
+                                if !missing_namespace_ids.contains(&namespace_id) {
+                                    missing_namespace_ids.push(namespace_id);
+                                }
                             }
                         }
                     }
                 }
                 NodeEdge::End(node) => {
                     if self.is_element(node) {
-                        fullname_serializer.pop(self.has_namespace_declarations(node));
+                        fullname_serializer.pop(pushed.pop().unwrap());
                     }
                 }
             }
         }
-        let mut prefixes_to_add = HashMap::default();
-        for (i, namespace_id) in missing_namespace_ids.iter().enumerate() {
-            let prefix = format!("n{}", i);
-            let prefix_id = self.add_prefix(&prefix);
-            prefixes_to_add.insert(prefix_id, namespace_id);
+        drop(fullname_serializer);
+        // prefixes in scope of the node must not be overridden either
+        for (prefix_id, _) in self.namespaces_in_scope(node).collect::<Vec<_>>() {
+            used_prefix_ids.insert(prefix_id);
         }
-        let mut namespaces = self.namespaces_mut(node);
-
-        for (prefix_id, namespace_id) in prefixes_to_add {
-            namespaces.insert(prefix_id, *namespace_id);
+        let mut counter = 0;
+        for namespace_id in missing_namespace_ids {
+            let prefix_id = loop {
+                let prefix_id = self.add_prefix(&format!("n{}", counter));
+                counter += 1;
+                if !used_prefix_ids.contains(&prefix_id) {
+                    break prefix_id;
+                }
+            };
+            used_prefix_ids.insert(prefix_id);
+            self.namespaces_mut(node).insert(prefix_id, namespace_id);
         }
-        Ok(())
+        for undeclare_node in undeclare_nodes {
+            let empty_prefix = self.empty_prefix();
+            let no_namespace = self.no_namespace();
+            self.namespaces_mut(undeclare_node)
+                .insert(empty_prefix, no_namespace);
+        }
     }
 
     /// Deduplicate namespaces.
